@@ -285,7 +285,48 @@ func runC18(c *Ctx, r *Report) {
 	linkKeyF := p.Field("io/cbor", "IOCbor", "linkKey")
 	entryParam := paramObj(ps, 0)
 	pf := &Flow{P: p, Fn: ps, Entry: Facts{}}
+	atomFacts := func(a condAtom, f Facts) {
+		if x, isNil, ok := nilTest(a); ok && isNil {
+			if v, _ := p.FieldSel(ps, x); v == linkKeyF {
+				f["nokey"] = true
+			}
+		}
+		if be, ok := ast.Unparen(a.E).(*ast.BinaryExpr); ok && ((be.Op == token.EQL && a.Truth) || (be.Op == token.NEQ && !a.Truth)) {
+			if call, ok := ast.Unparen(be.X).(*ast.CallExpr); ok && p.Builtin(ps, call) == "len" && len(call.Args) == 1 {
+				if lit, ok := ast.Unparen(be.Y).(*ast.BasicLit); ok && lit.Value == "0" {
+					if inner, ok := ast.Unparen(call.Args[0]).(*ast.CallExpr); ok {
+						if se, ok := ast.Unparen(inner.Fun).(*ast.SelectorExpr); ok && strings.HasPrefix(se.Sel.Name, "Get") {
+							f["empty|"+strings.TrimPrefix(se.Sel.Name, "Get")] = true
+						}
+					}
+				}
+			}
+		}
+	}
 	pf.Edge = func(cond ast.Expr, taken bool, f Facts) {
+		// every alternative of the branch condition must justify leaving the links in clear
+		alts := dnfCond(cond, taken)
+		if len(alts) > 1 {
+			every := true
+			for _, alt := range alts {
+				g := f.Clone()
+				for _, a := range alt {
+					atomFacts(a, g)
+				}
+				allE := true
+				for lf := range linkFields {
+					if !g["empty|"+lf] {
+						allE = false
+					}
+				}
+				if !g["nokey"] && !allE {
+					every = false
+				}
+			}
+			if every {
+				f["unsealedOK"] = true
+			}
+		}
 		for _, a := range splitCond(cond, taken) {
 			if x, isNil, ok := nilTest(a); ok && isNil {
 				if v, _ := p.FieldSel(ps, x); v == linkKeyF {
@@ -336,7 +377,7 @@ func runC18(c *Ctx, r *Report) {
 				allEmpty = false
 			}
 		}
-		r.Check(at["nokey"] || allEmpty, "R-C18.3", r.Key("R-C18.3", ps, "return", "unsealed"), ret.Pos(),
+		r.Check(at["nokey"] || allEmpty || at["unsealedOK"], "R-C18.3", r.Key("R-C18.3", ps, "return", "unsealed"), ret.Pos(),
 			"the entry is returned unsealed only when no link key is configured or it has no links at all",
 			"PreSign can return the entry with its links in clear although a link key is configured and the entry has predecessors or references")
 	})
